@@ -35,6 +35,23 @@ pub fn round_trip(l: &Logical, w: Api, family: &str, extra_probes: &[u64]) -> (V
             }
         }
     }
+    // second generation: what was written is opened, written again by the flavour that opened it, and opened once
+    // more - the archive a user gets after "open, save" must still be the same archive (archives up to 64 KiB)
+    if bytes.len() <= 65_536 && bad.is_empty() {
+        for r in APIS {
+            match edit_rewrite(&bytes, r, &Edit::default()) {
+                Ok(b2) => match open_view(&b2, w, &probes) {
+                    Ok(v) => {
+                        for (clause, d) in compare_view(l, &v) {
+                            bad.push((format!("second-generation/{clause}/{family}"), format!("[{} writer, re-written by the {} API, {}] {d}", w.name(), r.name(), cname(l.settings.internal))));
+                        }
+                    }
+                    Err(e) => bad.push((format!("second-generation/open-error/{family}"), format!("[{} writer, re-written by the {} API] {e}", w.name(), r.name()))),
+                },
+                Err(e) => bad.push((format!("second-generation/rewrite-error/{family}"), format!("[{} writer, re-written by the {} API] {e}", w.name(), r.name()))),
+            }
+        }
+    }
     (bad, Some(fnv(&bytes)))
 }
 
@@ -206,7 +223,7 @@ pub fn scale_jobs(thorough: bool) -> Vec<(u32, usize, Compression)> {
 pub fn run(tier: &str) -> i32 {
     let rep = Report::new("C01", tier, "exploration");
     let thorough = rep.thorough();
-    rep.rule("all partial maps of ids {0,1,2,4,5[,LAST]} into contents {41,42,4100,4101}, all 3^6 maps of ids {127,128,129,16383,16384,16385} and of {2^32-2,2^32-1,2^32,2^32+1,2^56,LAST-1} into two contents, x 4 compressions x {sync,async} writer x {sync,async} reader; all 4^3 maps of three 100KiB near-duplicate contents; metadata alphabet (incl. 5KiB string, integer extremes, 140 floats) x 4c x 3 maps; settings alphabet (30 enum pairs, 64 zoom triples, 153 coordinate sextuples) x 2 maps; cross-product control; scale families forcing leaf spill; non-trivial = archives with >=1 tile or non-empty metadata/non-default settings; distinct = distinct written byte images");
+    rep.rule("every archive up to 64 KiB is additionally taken through a second generation (open, write again by either API, open): same content; all partial maps of ids {0,1,2,4,5[,LAST]} into contents {41,00,4100,4101}, all 3^6 maps of ids {127,128,129,16383,16384,16385} and of {2^32-2,2^32-1,2^32,2^32+1,2^56,LAST-1} into two contents, x 4 compressions x {sync,async} writer x {sync,async} reader; all 4^3 maps of three 100KiB near-duplicate contents; metadata alphabet (incl. 5KiB string, integer extremes, 140 floats) x 4c x 3 maps; settings alphabet (30 enum pairs, 64 zoom triples, 153 coordinate sextuples) x 2 maps; cross-product control; scale families forcing leaf spill; non-trivial = archives with >=1 tile or non-empty metadata/non-default settings; distinct = distinct written byte images");
     rep.assume("contents above 100 KiB, tile counts above 5*10^4 and metadata outside the alphabet are not explored");
     rep.assume("coordinates: stored value must equal the exact nearest multiple of 1e-7 (either neighbour at an exact tie)");
 
